@@ -292,9 +292,13 @@ class IMAPConnection:
 
     async def handle_updates(self, state: ConnectionState, done: Event,
                              cmd: IdleCommand) -> None:
+        # what is known already is sent at once, e.g. an expunge that the
+        # previous command was not allowed to report
+        wait_on: Event | None = None
         while not done.is_set():
-            untagged = await self._exec(state.receive_updates(cmd, done))
+            untagged = await self._exec(state.receive_updates(cmd, wait_on))
             await shield(self.write_updates(untagged))
+            wait_on = done
 
     async def idle(self, state: ConnectionState, cmd: IdleCommand) \
             -> CommandResponse:
